@@ -191,19 +191,41 @@ def for_loops(body):
     return out
 
 
-def loop_leaves_early(body, head):
+def loop_leaves_early(body, head, ok_only=False):
     """True iff the `for` loop whose head is the call `head` (Iterator::next) can be left other
     than by exhausting the iterator: some path from the loop body reaches a function exit
-    without coming back to the head (`break`, `return`, `?`)."""
+    without coming back to the head (`break`, `return`).  With ok_only, leaving through an
+    error (`?`, `bail!`, `return Err`) is allowed: only exits that can still end in `Ok(..)`
+    count (the function reports success although items were skipped)."""
     oe = body.outcome_edges(head)
     some = oe.get("ok") or []
     if not some:
         return None
-    rets = set(body.return_blocks())
+    if ok_only:
+        targets = set(result_blocks(body, "Ok"))
+        if not targets:
+            return None
+    else:
+        targets = set(body.return_blocks())
     for (u, v) in some:
-        if rets & body.reachable(v, removed_blocks=[head.bb]):
+        if targets & body.reachable(v, removed_blocks=[head.bb]):
             return True
     return False
+
+
+def exhaustive_loops(rep, rule, body, it_rx, floor, what, why, ok_only=False):
+    """Every `for` loop of `body` whose iterated expression matches it_rx runs to exhaustion."""
+    n = 0
+    for head, it in for_loops(body):
+        if not re.search(it_rx, it):
+            continue
+        n += 1
+        early = loop_leaves_early(body, head, ok_only=ok_only)
+        rep.check(early is False, rule, rep.nth(f"{what}:exhaustive"),
+                  f"the loop over `{it[:70]}` can be left before all items were handled "
+                  f"({'and still report success' if ok_only else 'break/return'}): {why}",
+                  head.where())
+    rep.floor(rule, n, floor, f"loops over {what}")
 
 
 def must_be_equal(body, a_rx, b_rx, target_bb):
